@@ -65,6 +65,9 @@ type Conn struct {
 	// Marks whether the connection was opened by the remote peer, or the local peer.
 	openedByRemote bool
 
+	// Upper bound for the length a remote peer may declare for a piece payload.
+	maxPieceLength int64
+
 	startOnce sync.Once
 
 	sender   chan *Message
@@ -113,6 +116,7 @@ func newConn(
 		stats:          stats,
 		networkEvents:  networkEvents,
 		openedByRemote: openedByRemote,
+		maxPieceLength: info.MaxPieceLength(),
 		sender:         make(chan *Message, config.SenderBufferSize),
 		receiver:       make(chan *Message, config.ReceiverBufferSize),
 		closed:         atomic.NewBool(false),
@@ -220,7 +224,15 @@ func (c *Conn) readMessage() (*Message, error) {
 	var pr storage.PieceReader
 	if p2pMessage.Type == p2p.Message_PIECE_PAYLOAD {
 		// For payload messages, we must read the actual payload to the connection
-		// after reading the message.
+		// after reading the message. The header comes from the remote peer, so
+		// it must be validated before anything is allocated for it.
+		if p2pMessage.PiecePayload == nil {
+			return nil, errors.New("piece payload message has no body")
+		}
+		if l := int64(p2pMessage.PiecePayload.Length); l < 0 || l > c.maxPieceLength {
+			return nil, fmt.Errorf(
+				"invalid piece payload length %d: max piece length is %d", l, c.maxPieceLength)
+		}
 		payload, err := c.readPayload(p2pMessage.PiecePayload.Length)
 		if err != nil {
 			return nil, fmt.Errorf("read payload: %s", err)
